@@ -292,6 +292,20 @@ class Check(PropCheck):
         n = 6000 if tier == 'thorough' else 700
         for _ in range(n):
             yield Case(self.random_case(rng), 'random')
+        # `addStartTag` (where the invisible wrapper goes) at character level: model vs the real function
+        heads = ['', '\n', '\n\n  ', ' \t', ' \n', '\t\n', 'x', '<!--c-->', '<a>', '\r\n', '\n \n']
+        doctypes = ['<!DOCTYPE html>', '<!doctype html>', '<!DocType HTML PUBLIC "-//W3C//DTD XHTML 1.0//EN">', '<! doctype html>',
+                    '<!DOCTYPE', '<!DOCTYPEhtml>', '<!DOCTYP html>', '<!-- doctype -->', '<!DOCTYPE html\n>', '']
+        tails = ['', '<a></a><b></b>', 'x', '\n<p>t</p>', '<!DOCTYPE html>', '>', '<br/>>']
+        for h in heads:
+            for dt in doctypes:
+                for tl in tails:
+                    yield Case({'kind': 'wrap', 'text': h + dt + tl}, 'exhaustive-wrap')
+        for _ in range(n // 2):
+            text = render(self.random_tokens(rng), rng.randrange(1, 1 << 30))
+            if rng.random() < 0.5:
+                text = rng.choice(heads) + rng.choice(doctypes) + text
+            yield Case({'kind': 'wrap', 'text': text[:300]}, 'random-wrap')
 
     def random_tokens(self, rng):
         toks = []
@@ -349,9 +363,13 @@ class Check(PropCheck):
         return {'parser': rng.choice(('plain', 'indexed')), 'hist': hist}
 
     def nontrivial(self, d):
+        if d.get('kind') == 'wrap':
+            return '<!' in d['text']
         return any(len(h['toks']) >= 2 and any(t[0] in ('start', 'startend') for t in h['toks']) for h in d['hist'])
 
     def features(self, d):
+        if d.get('kind') == 'wrap':
+            return ['kind:wrap']
         fs = {'parser:' + d['parser'], 'parses=%d' % len(d['hist'])}
         for h in d['hist']:
             fs.add('entry:' + h['entry'])
@@ -387,6 +405,11 @@ class Check(PropCheck):
         return sorted(fs)
 
     def shrink(self, d):
+        if d.get('kind') == 'wrap':
+            t = d['text']
+            for i in range(len(t)):
+                yield {'kind': 'wrap', 'text': t[:i] + t[i + 1:]}
+            return
         hist = d['hist']
         if len(hist) > 1:
             for i in range(len(hist)):
@@ -411,6 +434,9 @@ class Check(PropCheck):
 
     # ---- both sides ------------------------------------------------------------------------------------------------
     def encode(self, d):
+        if d.get('kind') == 'wrap':
+            from ..core import enc
+            return sx('wrap', enc(d['text']))
         return '(' + ' '.join(parsing.toks_sx(parsing.tokenize(render(h['toks'], h['rich']))) for h in d['hist']) + ')'
 
     def run_history(self, d):
@@ -431,6 +457,11 @@ class Check(PropCheck):
             shutil.rmtree(tmpdir, ignore_errors=True)
 
     def impl(self, d):
+        if d.get('kind') == 'wrap':
+            from ..core import enc
+            from AdvancedHTMLParser.utils import addStartTag
+            from AdvancedHTMLParser.constants import INVISIBLE_ROOT_TAG_START, INVISIBLE_ROOT_TAG_END
+            return enc('%s%s' % (addStartTag(d['text'], INVISIBLE_ROOT_TAG_START), INVISIBLE_ROOT_TAG_END))
         out = []
         for text, parser, exc in self.run_history(d):
             if exc is not None:
@@ -458,6 +489,8 @@ class Check(PropCheck):
 
     # ---- the property itself on the library --------------------------------------------------------------------------
     def oracle(self, d):
+        if d.get('kind') == 'wrap':
+            return self.wrap_oracle(d['text'])
         for n, (text, parser, exc) in enumerate(self.run_history(d)):
             if exc is not None:
                 return ('raises', 'parse %d of %r raised %s: %s' % (n, text, type(exc).__name__, exc))
@@ -512,6 +545,28 @@ class Check(PropCheck):
                     d_ = d_ or tree_match(a, bb, True)
             if d_:
                 return ('getHTML', 'parse %d of %r: %s (getHTML=%r)' % (n, text, d_, html))
+        return None
+
+    def wrap_oracle(self, text):
+        """the wrapper start goes directly after a leading doctype declaration as the tokenizer delimits it (optionally
+        preceded by newlines then blanks), else in front of everything: nothing of the document may stay outside"""
+        from AdvancedHTMLParser.utils import addStartTag
+        w = addStartTag(text, '<xxxblank>') + '</xxxblank>'
+        toks = parsing.tokenize(text)
+        lead = 0
+        if toks and toks[0][0] == 'decl':
+            lead = 1
+        elif len(toks) > 1 and toks[0][0] == 'data' and toks[1][0] == 'decl' and \
+                toks[0][1].lstrip('\n').lstrip(' \t') == '':
+            lead = 2
+        wt = parsing.tokenize(w)
+        if 'xxxblank' in text.lower():
+            return None
+        want = toks[:lead] + [['start', 'xxxblank', []]]
+        if wt[:lead + 1] != want:
+            # only when the text lexes the same inside the wrapper (no unterminated construct swallowing the end tag)
+            if parsing.tokenize(text + '<i>')[:len(toks)] == toks:
+                return ('wrap', 'addStartTag(%r) = %r: its tokens start with %r, expected %r' % (text, w, wt[:lead + 1], want))
         return None
 
     def _as_lib(self, blocks):
